@@ -576,6 +576,24 @@ def run(ctx):
 
 def replay(ctx, case):
     sig = case.pop("signature", None) if isinstance(case, dict) else None
+    if "hover_requests" in case:
+        # model-free: a source text and [line, column, text that the hover must contain] triples
+        root = os.path.join(ctx.scratch, "c11_replay")
+        shutil.rmtree(root, ignore_errors=True)
+        os.makedirs(root)
+        path = os.path.join(root, "c11r.f90")
+        with open(path, "w") as fh:
+            fh.write(case["text"])
+        srv = Server(root=root, argv=ARGV)
+        out = []
+        for ln, col, want in case["hover_requests"]:
+            resp, _ = srv.request("textDocument/hover", pos_params(path, ln, col))
+            res = resp.get("result")
+            got = res["contents"]["value"] if isinstance(res, dict) else None
+            if got is None or want not in got:
+                out.append(Disc(sig or "hover:replay", f"hover at {ln}:{col} ({case['text'].splitlines()[ln].strip()!r}): {got!r} lacks {want!r}"))
+        shutil.rmtree(root, ignore_errors=True)
+        return out
     if "sig_requests" in case:
         # model-free: a source text and [line, column, expected activeParameter] triples
         root = os.path.join(ctx.scratch, "c11_replay")
